@@ -4,7 +4,8 @@
    _generate_streamer_setup_vals and the xDMA / accelerator-specific variants), tied to the code by
    the L1 correspondence in harness/props/c08.py on every run (field names rendered to the real
    strings, value lists compared exactly, marker experiment through the real convert_to_acc_ops). *)
-From Snax Require Import Base.Prelude Model.C08StreamerCfg Proofs.C08StreamerProofs.
+From Snax Require Import Base.Prelude Model.C08StreamerCfg Model.C08Accels Model.C08Sem
+  Proofs.C08StreamerProofs Proofs.C08AccelProofs Proofs.C08SemProofs.
 
 (* 1. Regular-system streamers, EVERY configuration (any number <= 26 of streamers, any temporal
       flags, any spatial dims, any option list) and every op the generator accepts: the value list
@@ -43,3 +44,129 @@ Theorem C08_more_than_26_streamers_refuted :
   exists l, setup_vals cfg27 op27 = Some l /\ List.length l <> List.length (setup_fields cfg27).
 Proof. exact more_than_26_streamers_refuted. Qed.
 Print Assumptions C08_more_than_26_streamers_refuted.
+
+(* ---- xDMA system type ------------------------------------------------------------------------------
+   4. For every xDMA configuration in the Safe class (every streamer HasChannelMask; extension value
+      lists have the declared csr_length, which for a non-generic body means csr_length = 1), for
+      EVERY csr_length assignment `elen`: aligned. *)
+Theorem C08_fields_vals_aligned_xdma_partial :
+  forall elen cfg op b l, (List.length cfg <= 26)%nat -> safe_xdmab elen cfg b = true ->
+  xdma_vals elen cfg op b = Some l ->
+  map fst l = map tag_of_name (xdma_fields elen cfg).
+Proof. exact fields_vals_aligned_xdma. Qed.
+Print Assumptions C08_fields_vals_aligned_xdma_partial.
+
+(* Full statement (without safe_xdmab) is REFUTED — finding F7: *)
+Theorem C08_xdma_no_channel_mask_refuted :
+  exists l, xdma_vals std_len xdma_cfg_nomask xdma_op2 (XGeneric []) = Some l /\
+            List.length l <> List.length (xdma_fields std_len xdma_cfg_nomask).
+Proof. exact xdma_no_channel_mask_refuted. Qed.
+Print Assumptions C08_xdma_no_channel_mask_refuted.
+Theorem C08_xdma_nongeneric_body_refuted :
+  exists l, xdma_vals std_len xdma_cfg_rescale xdma_op2 XOther = Some l /\
+            List.length l <> List.length (xdma_fields std_len xdma_cfg_rescale).
+Proof. exact xdma_nongeneric_body_refuted. Qed.
+Print Assumptions C08_xdma_nongeneric_body_refuted.
+
+(* 5. xDMA values meet their meaning when no operand's zero flag differs from the last one's
+      (the generator reads `is_zero_pattern` of the LAST operand for every mask: refuted otherwise). *)
+Theorem C08_vals_meet_spec_xdma_partial :
+  forall elen cfg op b l, zero_uniformb cfg op = true -> xdma_vals elen cfg op b = Some l ->
+  Forall (fun tv => xdma_spec_value cfg op b (fst tv) = Some (snd tv)) l.
+Proof. exact vals_meet_spec_xdma. Qed.
+Print Assumptions C08_vals_meet_spec_xdma_partial.
+Theorem C08_xdma_mask_of_last_operand_refuted :
+  exists l, xdma_vals std_len xdma_cfg_masks xdma_op_lastzero (XGeneric []) = Some l /\
+            In (TChanMask 0, VConst 0) l /\
+            xdma_spec_value xdma_cfg_masks xdma_op_lastzero (XGeneric []) (TChanMask 0) = Some (VConst (-1)).
+Proof. exact xdma_mask_of_last_operand_refuted. Qed.
+Print Assumptions C08_xdma_mask_of_last_operand_refuted.
+Example C08_xdma_nonvacuous :
+  safe_xdmab std_len xdma_cfg_masks (XGeneric [(EAdd, [2])]) = true /\
+  zero_uniformb xdma_cfg_masks xdma_op2 = true /\
+  exists l, xdma_vals std_len xdma_cfg_masks xdma_op2 (XGeneric [(EAdd, [2])]) = Some l.
+Proof. repeat split; try reflexivity. eexists. vm_compute. reflexivity. Qed.
+
+(* ---- accelerators ------------------------------------------------------------------------------------
+   6. snax_alu, snax_phs (one value per switch), snax_gemmx (every n >= 0, every body; per-channel
+      arrays of length 1 or >= n): aligned for every configuration. gemmx mirrors the code after
+      `fix: gemmx rescale-only lowering emits one multiplier value per mult_i field` (F8). *)
+Theorem C08_fields_vals_aligned_alu :
+  forall cfg op l, (List.length cfg <= 26)%nat -> alu_vals cfg op = Some l ->
+  map fst l = map tag_of_name (alu_fields cfg).
+Proof. exact fields_vals_aligned_alu. Qed.
+Print Assumptions C08_fields_vals_aligned_alu.
+Theorem C08_fields_vals_aligned_phs :
+  forall cfg op sw l, (List.length cfg <= 26)%nat -> phs_vals cfg op sw = Some l ->
+  map fst l = map tag_of_name (phs_fields cfg (List.length sw)).
+Proof. exact fields_vals_aligned_phs. Qed.
+Print Assumptions C08_fields_vals_aligned_phs.
+Theorem C08_fields_vals_aligned_gemmx :
+  forall cfg n op gb l, (List.length cfg <= 26)%nat -> 0 <= n -> gbody_okb n gb = true ->
+  gemmx_vals cfg n op gb = Some l ->
+  map fst l = map tag_of_name (gemmx_fields cfg n).
+Proof. exact fields_vals_aligned_gemmx. Qed.
+Print Assumptions C08_fields_vals_aligned_gemmx.
+Example C08_gemmx_nonvacuous :
+  let r := mkRescale 127 (-128) 1 [39] [1234567890] 3 (-4) in
+  gbody_okb 8 (GBRescale r) = true /\ gbody_okb 8 (GBMac true true (Some r)) = true /\
+  exists l, gemmx_kernel_vals 8 (mkSop [mkPat [4; 2] [0; 0] [8]; mkPat [4; 2] [0; 0] [8]; mkPat [4; 2] [64; 256] [8]] [])
+              (GBMac true true (Some r)) = Some l /\ List.length l = 18%nat.
+Proof. repeat split; try reflexivity. eexists. split; vm_compute; reflexivity. Qed.
+
+(* 7. snax_hwpe_mult: the values for `vector_length` and `nr_iters` are exchanged w.r.t. the names
+      (finding F9; the register addresses are exchanged as well, so the two cancel on the bus). *)
+Theorem C08_hwpe_names_values_swapped_refuted :
+  map fst hwpe_vals <> map tag_of_name hwpe_fields /\
+  nth 3 (map tag_of_name hwpe_fields) (TKern HwA) = TKern HwVectorLength /\
+  nth 3 hwpe_vals (TKern HwA, HOne) = (TKern HwNrIters, HOne) /\
+  nth 4 (map tag_of_name hwpe_fields) (TKern HwA) = TKern HwNrIters /\
+  nth 4 hwpe_vals (TKern HwA, HOne) = (TKern HwVectorLength, HDim0).
+Proof. exact hwpe_names_values_swapped. Qed.
+Print Assumptions C08_hwpe_names_values_swapped_refuted.
+
+(* ---- what the written bounds/strides mean ------------------------------------------------------------
+   8. Padding to the hardware dimensionality (bound 1, stride 0) enumerates the same address sequence. *)
+Theorem C08_padding_neutral :
+  forall n bs ss, List.length bs = List.length ss ->
+  addrs (hw_bounds n bs) (hw_strides n ss) = addrs bs ss.
+Proof. exact padding_neutral. Qed.
+Print Assumptions C08_padding_neutral.
+
+(* 9. Reuse collapse: a stride-0 dimension written as bound 1 visits the same addresses; in the
+      innermost position each address exactly once instead of b times in a row. *)
+Theorem C08_reuse_collapse_innermost :
+  forall b bs ss, 0 <= b ->
+  addrs (b :: bs) (0 :: ss) = flat_map (fun a => repeat a (Z.to_nat b)) (addrs (1 :: bs) (0 :: ss)).
+Proof. exact reuse_collapse_innermost. Qed.
+Print Assumptions C08_reuse_collapse_innermost.
+Theorem C08_reuse_collapse_same_addresses :
+  forall pre pre_s b post post_s, List.length pre = List.length pre_s -> 1 <= b ->
+  forall a, In a (addrs (pre ++ b :: post) (pre_s ++ 0 :: post_s))
+        <-> In a (addrs (pre ++ 1 :: post) (pre_s ++ 0 :: post_s)).
+Proof. exact reuse_collapse_same_addresses. Qed.
+Print Assumptions C08_reuse_collapse_same_addresses.
+
+(* 10. Loop counts: loop_bound_alu is the number of temporal steps of the (1-dim) stream; gemmx K*N*M
+       is the number of steps of the A stream when M divides it, temporal_loop_bound is M (i8 output),
+       and M is the number of steps of the output stream with its stride-0 dims collapsed. *)
+Theorem C08_loop_count_alu :
+  forall op b t ss l cfg, nth_error (s_pats op) 0 = Some (mkPat [b] [t] ss) -> 0 <= b ->
+  alu_vals cfg op = Some l ->
+  In (TKern LoopBoundAlu, VConst (steps [b] [t])) l.
+Proof. exact loop_count_alu. Qed.
+Print Assumptions C08_loop_count_alu.
+Theorem C08_loop_count_gemmx_knm :
+  forall n op qmac i8 resc l pA, nth_error (s_pats op) 0 = Some pA ->
+  List.length (p_ub pA) = List.length (p_ts pA) -> Forall (fun b => 0 <= b) (p_ub pA) ->
+  gemmx_kernel_vals n op (GBMac qmac i8 resc) = Some l ->
+  exists k m, In (TKern GK, GC k) l /\ In (TKern GN, GC 1) l /\ In (TKern GM, GC m) l /\
+              In (TKern GTemporalLoopBound, if i8 then GC m else GC 0) l /\
+              ((m | steps (p_ub pA) (p_ts pA)) -> k * 1 * m = steps (p_ub pA) (p_ts pA)).
+Proof. exact loop_count_gemmx_knm. Qed.
+Print Assumptions C08_loop_count_gemmx_knm.
+Theorem C08_loop_count_gemmx_m :
+  forall p, List.length (p_ub p) = List.length (p_ts p) -> Forall (fun b => 0 <= b) (p_ub p) ->
+  prod_nonreducing p = steps (map (fun bs => if snd bs =? 0 then 1 else fst bs) (combine (p_ub p) (p_ts p))) (p_ts p).
+Proof. exact loop_count_gemmx_m. Qed.
+Print Assumptions C08_loop_count_gemmx_m.
